@@ -211,10 +211,20 @@ class BatchLoader(LoaderBase):
     ) -> DaskArrayList:
         """Construct batch loading tasks."""
         _backend = backend or Backend()
-        return DaskArrayList.concat(
-            loader.construct_loading_tasks(output_shape=output_shape, backend=_backend)
-            for loader in self.loaders
-        )
+        # Loaders are iterated tomogram by tomogram, but the molecules of different
+        # tomograms may be interleaved in the table: put every task back to the row of
+        # the molecule it belongs to.
+        image_ids = self.molecules.features[IMAGE_ID_LABEL].to_numpy()
+        tasks: list = [None] * len(image_ids)
+        for loader in self.loaders:
+            key = loader.molecules.features[IMAGE_ID_LABEL][0]
+            rows = np.flatnonzero(image_ids == key)
+            each = loader.construct_loading_tasks(
+                output_shape=output_shape, backend=_backend
+            )
+            for row, task in zip(rows, each):
+                tasks[row] = task
+        return DaskArrayList(tasks)
 
 
 class LoaderAccessor:
